@@ -876,7 +876,13 @@ func (h *c19H) layoutBatch(specs []c19Spec) *c19Batch {
 		bumpedN += int64(bumped)
 		good := true
 		if msg != "" {
-			h.violate("layout", spec, "structlayout: "+msg+fmt.Sprintf(" [structlayout: %v | compiler: size %d align %d leaves %v]", got, o.Size, o.Align, c19LeafString(o)))
+			class := "layout" // a field's offset, size or alignment differs from the compiler's
+			for _, p := range []string{"gap", "overlap", "fields and padding cover", "entry "} {
+				if strings.HasPrefix(msg, p) {
+					class = "tiling" // fields and padding do not tile [0, Sizeof)
+				}
+			}
+			h.violate(class, spec, "structlayout: "+msg+fmt.Sprintf(" [structlayout: %v | compiler: size %d align %d leaves %v]", got, o.Size, o.Align, c19LeafString(o)))
 			good = false
 		}
 		var gmsg string
